@@ -528,7 +528,7 @@ pub fn roots_once(which: Which, tier: &str, seed: i64) -> (Acc, Vec<SpaceReport>
         Space::slice(Universe::UP, if q { 8 } else { 1 }, off),
         // a pawn on the 7th against a rook or queen: roots where an under-promotion (a knight fork, a stalemate-avoiding
         // rook) is the best move, so that lines continue with a move of the new piece
-        Space::slice(Universe::UPQ, if q { 8 } else { 1 }, off),
+        Space::all(Universe::UPQ),
     ];
     run_spaces(&spaces, &|ctx, acc| {
         let Ok(g) = load(ctx.pos) else { return };
